@@ -238,6 +238,18 @@ func enumerate(t *testing.T, n int, shapesPerProp []propShape, rules []ruleSpec,
 					ev.Fail(t, "native", nc, "%s\nschema: %s", nmsg, oracle.SpecJSON(o))
 				}
 			}
+			// lone non-map values: the shorthand for the single property of a one-property object - and nothing else
+			// (every flag of that property applies on this route too: disabled, bounds, ...)
+			for i := 0; i < n; i++ {
+				for _, lone := range []val.V{form[f].values[i], val.Str("lone"), val.Nil()} {
+					cs := oracle.Case{Spec: o, Raw: lone, Note: "lone value"}
+					msg, class, _, _ := oracle.UnserializeWith(sch, cs)
+					ev.Case(ev.FP("lone", form[f].name, n, code, i, lone.String()), true, "enum_lone_value:"+class)
+					if msg != "" {
+						ev.Fail(t, "unserialize", cs, "%s\nschema: %s", msg, oracle.SpecJSON(o))
+					}
+				}
+			}
 			// decisive = flipping one supplied bit changes the verdict
 			for sub := 0; sub < 1<<n; sub++ {
 				decisive := false
